@@ -65,6 +65,9 @@ fn ops() -> Vec<Vec<S>> {
         vec![set("s", E::Str(vec![SP::Var("a".into())]))],
         vec![shout(idx(a(), num("0")))],
         vec![S::SetIdx(idx(a(), num("5")), num("1"))],
+        // one past the end, wherever the end is after the pushes / pops so far
+        vec![S::SetIdx(idx(a(), meth(a(), "len", vec![])), num("8"))],
+        vec![S::SetIdx(idx(idx(a(), num("0")), meth(idx(a(), num("0")), "len", vec![])), num("8"))],
         // a function that writes the captured `a` through an index, called from a function
         // that holds its own local named `a`
         vec![S::Func("shadowed".into(), vec![], vec![make("a", E::Arr(vec![E::Arr(vec![num("70")]), num("71")])), S::Expr(call("setg", vec![])), S::Expr(call("pushg", vec![])), shout(var("a"))]), S::Expr(call("shadowed", vec![]))],
@@ -158,6 +161,47 @@ fn activations() -> Gen<Vec<S>> {
     })
 }
 
+/// Arrays that start out *empty inside another array* and are filled later, in loop bodies and
+/// functions (their backing store is first allocated long after the enclosing value was stored).
+fn nested_empties(max_len: u32) -> Gen<Vec<S>> {
+    let m = || var("m");
+    let e = |x: E| S::Expr(x);
+    let in_loop = |c: &str, body: Vec<S>| -> Vec<S> {
+        let mut b = body;
+        b.push(S::Set(c.to_string(), bin(Op::Add, var(c), num("1"))));
+        vec![S::Make(c.to_string(), Some(num("0"))), S::Loop(bin(Op::Lt, var(c), num("2")), b)]
+    };
+    let ops: Vec<Vec<S>> = vec![
+        vec![set("m", E::Arr(vec![E::Arr(vec![]), E::Arr(vec![]), E::Arr(vec![])]))],
+        in_loop("i1", vec![e(meth(idx(m(), num("0")), "push", vec![bin(Op::Add, var("s"), st("!"))]))]),
+        vec![e(call("fill", vec![num("1")]))],
+        vec![set("m2", m()), e(meth(idx(var("m2"), num("0")), "push", vec![st("c")])), shout(var("m2"))],
+        vec![e(meth(m(), "push", vec![E::Arr(vec![])]))],
+        in_loop("i5", vec![e(meth(idx(m(), bin(Op::Sub, meth(m(), "len", vec![]), num("1"))), "push", vec![var("i5")]))]),
+        in_loop("i6", vec![set("s", bin(Op::Add, var("s"), st("xxxxxxxx")))]),
+        vec![set("m", call("id", vec![m()]))],
+        vec![shout(m())],
+        vec![S::SetIdx(idx(m(), num("2")), E::Arr(vec![]))],
+        in_loop("i10", vec![e(meth(idx(m(), num("2")), "push", vec![E::Arr(vec![var("i10")])]))]),
+        vec![e(call("fill", vec![num("0")])), e(call("fill", vec![num("2")]))],
+    ];
+    seq_range(&Gen::of(ops), 1, max_len).map(|seq| {
+        let mut p = vec![
+            make("m", E::Arr(vec![E::Arr(vec![]), E::Arr(vec![]), E::Arr(vec![])])),
+            make("m2", E::Arr(vec![])),
+            make("s", st("str")),
+            func("id", &["p"], vec![S::Ret(Some(var("p")))]),
+            func("fill", &["k"], vec![S::Expr(meth(idx(var("m"), var("k")), "push", vec![bin(Op::Add, st("f"), var("k"))])), make("junk", bin(Op::Add, var("s"), st("-junk")))]),
+        ];
+        for w in seq {
+            p.extend(w);
+        }
+        p.push(shout(var("m")));
+        p.push(shout(var("m2")));
+        p
+    })
+}
+
 fn mutation(x: E, m: u8) -> Vec<S> {
     match m {
         0 => vec![S::Expr(meth(x, "push", vec![var("n")]))],
@@ -177,8 +221,14 @@ pub fn spaces(tier: Tier) -> Vec<Box<dyn Space>> {
     let mut v: Vec<Box<dyn Space>> = Vec::new();
     v.push(Box::new(ArrSpace { id: "hist-all-le2".into(), generator: programs(2, false), profile: Profile::Poison }));
     v.push(Box::new(ArrSpace { id: "hist-core-le3".into(), generator: programs(3, true), profile: Profile::Poison }));
-    v.push(Box::new(ArrSpace { id: "hist-all-le3".into(), generator: programs(3, false), profile: Profile::Fast }));
+    if t {
+        v.push(Box::new(ArrSpace { id: "hist-all-le3".into(), generator: programs(3, false), profile: Profile::Fast }));
+    } else {
+        v.push(Box::new(ArrSpace { id: "hist-all-le2".into(), generator: programs(2, false), profile: Profile::Fast }));
+    }
     v.push(Box::new(ArrSpace { id: "activations".into(), generator: activations(), profile: Profile::Poison }));
+    v.push(Box::new(ArrSpace { id: "nested-empties".into(), generator: nested_empties(if t { 5 } else { 4 }), profile: Profile::Poison }));
+    v.push(Box::new(ArrSpace { id: "nested-empties".into(), generator: nested_empties(if t { 5 } else { 4 }), profile: Profile::Fast }));
     if t {
         v.push(Box::new(ArrSpace { id: "hist-core-le5".into(), generator: programs(5, true), profile: Profile::Fast }));
         v.push(Box::new(ArrSpace { id: "hist-core-le4".into(), generator: programs(4, true), profile: Profile::Poison }));
